@@ -4,10 +4,10 @@ import verif
 
 PROPS = "Props/C18.v"
 
-# classes in which the unchanged code does not meet the wording of the property; each is reported as a
-# KNOWN-FINDING when KNOWN_FINDINGS.jsonl lists it for C18, and as a VIOLATION (with the concrete case) otherwise
+# classes in which the code does not meet the wording of the property (behaviour of Go's encoding/csv underneath csv.go);
+# each is reported as a KNOWN-FINDING when KNOWN_FINDINGS.jsonl lists it for C18, and as a VIOLATION (with the concrete
+# case) otherwise.  The driver puts a failing oracle into a class only if the implementation did exactly what the model predicts
 CLASSES = {
-    "zero-metric-chunk": "C18-zero-metric-chunk",
     "lone-empty-key": "C18-lone-empty-key",
     "key-crlf": "C18-key-crlf",
 }
